@@ -195,11 +195,51 @@ func (p *Program) Extract(s Site) (val string, pos string, fn *ssa.Function, err
 // recipeEquivalent: accepted alternatives of single recipes whose property only needs a weaker
 // fact than textual equality.
 func recipeEquivalent(key, got, want string) bool {
+	// a buffer of the specified size filled by copy (Copy#k(X,N)) may be written as an exact copy of
+	// X (append([]byte(nil), X...), bytes.Clone): the length guard in front of it is a recipe of
+	// its own. Only this direction: a copy into a buffer of another size stays a difference.
+	if strings.Contains(want, "Copy#") && copiesAsConcat(want) == got {
+		return true
+	}
+	// guard sets: every specified guard must be there; an additional refusal is accepted only if
+	// it is one the format itself implies (listed in impliedGuards, from the specification:
+	// a wrapped file key is 16 bytes + a 16-byte tag)
+	if strings.HasSuffix(key, ".guards") {
+		have := map[string]bool{}
+		for _, g := range strings.Split(got, " ; ") {
+			have[g] = true
+		}
+		missing := false
+		for _, g := range strings.Split(want, " ; ") {
+			if !have[g] {
+				missing = true
+			}
+			delete(have, g)
+		}
+		if !missing {
+			extraOK := true
+			for g := range have {
+				if !impliedGuards[key][g] {
+					extraOK = false
+				}
+			}
+			if extraOK {
+				return true
+			}
+		}
+	}
 	switch key {
 	case "plugin.ParseRecipient.name":
 		// the prefix removed by slicing after the prefix test instead of TrimPrefix (the facts
 		// recipe of the same function requires the HasPrefix guard)
 		if got == `Slice(bech32.Decode(P1).0, 4, _)` && want == `strings.TrimPrefix(bech32.Decode(P1).0, "age1")` {
+			return true
+		}
+	case "Decrypt.NewReader.key":
+		// the file key is the result of the identity that succeeded; whether it travels through a
+		// variable that starts out nil (merged with nil) does not matter: R04.4 requires the key
+		// of a successful Unwrap, or a key known to be non-nil, wherever Decrypt carries on
+		if stripNilPhis(got) == stripNilPhis(want) {
 			return true
 		}
 	case "stream.readChunk.Open.dst":
@@ -253,4 +293,127 @@ func checkSites(p *Program, r *Result, sites []Site, prop string) {
 			r.Bad(sub, "recipe:"+s.Key, pos, "differs from the specification table\n   got  "+got+"\n   want "+want)
 		}
 	}
+}
+
+// stripNilPhis rewrites every two-way merge with nil, Phi(X, nil) or Phi(nil, X), to X.
+func stripNilPhis(s string) string {
+	for {
+		changed := false
+		for i := 0; i+4 <= len(s); i++ {
+			if !strings.HasPrefix(s[i:], "Phi(") || (i > 0 && (s[i-1] == '_' || s[i-1] >= 'a' && s[i-1] <= 'z' || s[i-1] >= 'A' && s[i-1] <= 'Z')) {
+				continue
+			}
+			// split the arguments at top level
+			depth, start := 0, i+4
+			var args []string
+			end := -1
+			inStr := false
+			for j := i + 4; j < len(s); j++ {
+				c := s[j]
+				if inStr {
+					if c == '\\' {
+						j++
+					} else if c == '"' {
+						inStr = false
+					}
+					continue
+				}
+				switch c {
+				case '"':
+					inStr = true
+				case '(', '[', '{':
+					depth++
+				case ')', ']', '}':
+					if depth == 0 {
+						args = append(args, s[start:j])
+						end = j
+					}
+					depth--
+				case ',':
+					if depth == 0 {
+						args = append(args, s[start:j])
+						start = j + 2
+					}
+				}
+				if end >= 0 {
+					break
+				}
+			}
+			if end < 0 || len(args) != 2 {
+				continue
+			}
+			keep := ""
+			if args[1] == "nil" {
+				keep = args[0]
+			} else if args[0] == "nil" {
+				keep = args[1]
+			}
+			if keep == "" {
+				continue
+			}
+			s = s[:i] + keep + s[end+1:]
+			changed = true
+			break
+		}
+		if !changed {
+			return s
+		}
+	}
+}
+
+// copiesAsConcat rewrites every Copy#k(X,N) to Concat(X).
+func copiesAsConcat(s string) string {
+	for {
+		i := strings.Index(s, "Copy#")
+		if i < 0 {
+			return s
+		}
+		j := i + len("Copy#")
+		for j < len(s) && s[j] >= '0' && s[j] <= '9' {
+			j++
+		}
+		if j >= len(s) || s[j] != '(' {
+			return s
+		}
+		depth, end, lastComma := 0, -1, -1
+		inStr := false
+		for k := j + 1; k < len(s) && end < 0; k++ {
+			c := s[k]
+			if inStr {
+				if c == '\\' {
+					k++
+				} else if c == '"' {
+					inStr = false
+				}
+				continue
+			}
+			switch c {
+			case '"':
+				inStr = true
+			case '(', '[', '{':
+				depth++
+			case ')', ']', '}':
+				if depth == 0 {
+					end = k
+				}
+				depth--
+			case ',':
+				if depth == 0 {
+					lastComma = k
+				}
+			}
+		}
+		if end < 0 || lastComma < 0 {
+			return s
+		}
+		s = s[:i] + "Concat(" + s[j+1:lastComma] + ")" + s[end+1:]
+	}
+}
+
+// impliedGuards: refusals that follow from the age v1 format for every file the specification
+// allows, so that making them explicit (earlier) changes nothing for valid input.
+var impliedGuards = map[string]map[string]bool{
+	"ScryptIdentity.unwrap.guards":  {`len(Field(P1.Body)) == 32`: true},
+	"X25519Identity.unwrap.guards":  {`len(Field(P1.Body)) == 32`: true},
+	"Ed25519Identity.unwrap.guards": {`len(Field(P1.Body)) == 32`: true},
 }
